@@ -79,12 +79,14 @@ fn main() {
     }
     let replaying = cli.replay.clone().map(|p| trv_core::load_replay(&p));
     let mut rep = Report::new("C17", cli.tier, "exploration");
-    rep.rule = "full grid: 7 strategies (value, value function, from error, from request and error, backup service ok / failing, error transformation) x 4 predicates (none, accept, reject, by error kind) x every sequence of 3 inner outcomes over {ok, error kind 0, error kind 1} on one service instance and a clone, with distinguishable requests; outer results, inner and backup call logs compared with a pure reference function. distinct = distinct (strategy, predicate, inner outcome, observed result class)".into();
+    rep.rule = "full grid: 7 strategies (value, value function, from error, from request and error, backup service ok / failing, error transformation) x 4 predicates (none, accept, reject, by error kind) x both builder call orders x every sequence of 3 inner outcomes over {ok, error kind 0, error kind 1} on one service instance and a clone, with distinguishable requests; outer results, inner and backup call logs compared with a pure reference function. distinct = distinct (strategy, predicate, inner outcome, observed result class)".into();
     let mut reported = std::collections::BTreeSet::new();
     let outs = [Out::Ok, Out::Err(0), Out::Err(1)];
     for s in STRATS {
         for p in PREDS {
-            for code in 0..27usize {
+            for code in 0..54usize {
+                let predicate_first = code >= 27;
+                let code = code % 27;
                 let script: Vec<Out> = vec![outs[code % 3], outs[(code / 3) % 3], outs[(code / 9) % 3]];
                 let w = World::new(0, 10, Mode::Script, 1);
                 {
@@ -96,6 +98,15 @@ fn main() {
                 let value_fn_calls = Arc::new(AtomicU32::new(0));
                 let backup_log: Arc<Mutex<Vec<Req>>> = Arc::new(Mutex::new(vec![]));
                 let mut b = FallbackLayer::<Req, Resp, InnerErr>::builder();
+                // the builder calls are issued in both orders: predicate before / after the strategy
+                if predicate_first {
+                    b = match p {
+                    Pred::None => b,
+                    Pred::Accept => b.handle(|_e: &InnerErr| true),
+                    Pred::Reject => b.handle(|_e: &InnerErr| false),
+                    Pred::ByKind => b.handle(|e: &InnerErr| e.kind == 0),
+                    };
+                }
                 b = match s {
                     Strat::Value => b.value(Resp { serial: 777_000, req: 0, key: 0 }),
                     Strat::ValueFn => {
@@ -120,12 +131,14 @@ fn main() {
                     }
                     Strat::Exception => b.exception(|e: InnerErr| InnerErr { id: e.id + 5_000, kind: e.kind }),
                 };
-                b = match p {
+                if !predicate_first {
+                    b = match p {
                     Pred::None => b,
                     Pred::Accept => b.handle(|_e: &InnerErr| true),
                     Pred::Reject => b.handle(|_e: &InnerErr| false),
                     Pred::ByKind => b.handle(|e: &InnerErr| e.kind == 0),
-                };
+                    };
+                }
                 let layer = b.build();
                 let mut svc = layer.layer(GatedInner::new(w.inner.clone()));
                 let mut clone = svc.clone();
@@ -195,7 +208,7 @@ fn main() {
                                 property: "C17".into(),
                                 kind,
                                 site: format!("{s:?}"),
-                                config: format!("strategy={s:?} predicate={p:?}"),
+                                config: format!("strategy={s:?} predicate={p:?} builder_order={}", if predicate_first { "predicate_first" } else { "strategy_first" }),
                                 history: json!({"script": format!("{script:?}"), "request_index": i}),
                                 detail,
                                 log: vec![],
